@@ -572,6 +572,17 @@ impl MutableArchive {
         use std::fs;
         use tempfile::NamedTempFile;
 
+        // Pending modifications have to be on disk and visible to the read handle: the
+        // listing and the reads below go through it, and it was opened before they were made
+        if self.dirty {
+            self.flush()?;
+            self.archive = Archive::open(&self._path)?;
+            self.hash_table = None;
+            self.block_table = None;
+            self._hi_block_table = None;
+            self.next_file_offset = None;
+        }
+
         // Ensure tables are loaded
         self.ensure_tables_loaded()?;
 
